@@ -459,3 +459,79 @@ func rpcList(st *syncStep) string {
 	}
 	return out
 }
+
+// StartHandlerProbes adds a requester that is not one of the nodes: every `every` of simulated time it asks one node
+// for the highest common block among ids drawn from that node's own chain (any heights, any order, unknown ids mixed
+// in) or for the blocks after a drawn id, and judges the answer by the same rule as the answers nodes give each other.
+// The nodes' own requests always list ids from the tip downwards; other implementations need not.
+func (m *SyncMonitor) StartHandlerProbes(every time.Duration) {
+	var tick func()
+	tick = func() {
+		m.handlerProbe()
+		m.S.At(every, "sync handler probe", tick)
+	}
+	m.S.At(every, "sync handler probe", tick)
+}
+
+func (m *SyncMonitor) handlerProbe() {
+	t := m.W.T
+	var ups []*Node
+	for _, n := range m.S.Nodes {
+		if n.Up && !n.IsAdversary {
+			ups = append(ups, n)
+		}
+	}
+	if len(ups) == 0 {
+		return
+	}
+	r := ups[simkit.Int(t, "hpnode", 0, len(ups)-1)]
+	tip := int(r.Tip().Height)
+	asker := &Node{Name: "probe"}
+	if simkit.Bool(t, "hpkind") {
+		k := simkit.Int(t, "hpids", 1, 8)
+		req := &csync.GetHighestCommonBlockRequest{}
+		for i := 0; i < k; i++ {
+			if simkit.Chance(t, "hpunknown", 1, 5) {
+				req.IDs = append(req.IDs, bytes.Repeat([]byte{byte(0xe0 + i)}, 32))
+				continue
+			}
+			if h, err := r.Chain.DataAccess().GetBlockHeaderByHeight(uint32(simkit.Int(t, "hpheight", 0, tip))); err == nil {
+				req.IDs = append(req.IDs, h.ID)
+			}
+		}
+		if len(req.IDs) == 0 {
+			return
+		}
+		data := req.Encode()
+		var resp []byte
+		var err error
+		m.S.Step(r, "sync handler probe getHighestCommonBlock", func() {
+			resp, err, _ = r.Conn.VerifHandleRPC("peer-probe", csync.RPCEndpointGetHighestCommonBlock, data)
+		})
+		simkit.Probe("c19_handler_probe_getHighestCommonBlock")
+		if err == nil && r.Up {
+			m.checkHandler(asker, r, rpcRec{proc: csync.RPCEndpointGetHighestCommonBlock, req: data, resp: resp})
+			m.raise()
+		}
+		return
+	}
+	var id []byte
+	if simkit.Chance(t, "hpunknown", 1, 6) {
+		id = bytes.Repeat([]byte{0xe7}, 32)
+	} else if h, err := r.Chain.DataAccess().GetBlockHeaderByHeight(uint32(simkit.Int(t, "hpheight", 0, tip))); err == nil {
+		id = h.ID
+	} else {
+		return
+	}
+	data := (&csync.GetBlocksFromIDRequest{ID: id}).Encode()
+	var resp []byte
+	var err error
+	m.S.Step(r, "sync handler probe getBlocksFromId", func() {
+		resp, err, _ = r.Conn.VerifHandleRPC("peer-probe", csync.RPCEndpointGetBlocksFromID, data)
+	})
+	simkit.Probe("c19_handler_probe_getBlocksFromId")
+	if err == nil && r.Up {
+		m.checkHandler(asker, r, rpcRec{proc: csync.RPCEndpointGetBlocksFromID, req: data, resp: resp})
+		m.raise()
+	}
+}
